@@ -1105,7 +1105,8 @@ func (t *Tree) Compile(file string, args []string, out io.Writer) (err error) {
 			printJump(ko)
 			_print("}")
 		case TypePredicate:
-			_print("\n   if !(%v) {", n)
+			// a line break before the closing parenthesis would end the expression
+			_print("\n   if !(%v) {", strings.TrimSpace(n.String()))
 			printJump(ko)
 			_print("}")
 		case TypeStateChange:
